@@ -42,10 +42,22 @@ cell, in a helper subprocess per shard.  This file is the *model* side and impor
   functions / callable objects / classes imported from a module next to the file, functools.partial objects,
   enum members of the standard library.
 
+    E  for a setting whose EFFECTIVE value (the derived Config property the server acts on) takes its built-in default
+       from an environment variable at access time (sendfile <- SENDFILE): every subset of the sources, the empty one
+       included, x every value of the pool x the variable unset / set to enabling, disabling, odd-case, meaningless
+       and empty text.  Judged like M at the settings layer, and then: a source mentions it -> the effective value
+       is the merged value; nobody does -> the documented environment-derived default.  The helper loads each such
+       cell a second time without the variable (control), which tells "the variable outranked a source" from "the
+       effective value is wrong whatever the environment";
+  in every M / D / X / E cell and after every start / returned reload of a history the other side-effect-free derived
+  properties (address, uid, gid, proc_name, worker_class_str, env, is_ssl, ssl_options, reuse_port,
+  paste_global_conf) are compared with a reference derivation from the merged normal forms as well.
+
 `-c PATH` is, by design, a mention of the setting `config` by the source carrying it, and the application
 argument (or --paste FILE on the command line) is the built-in default of `default_proc_name`; both are
 modelled as such, nothing else is exempt.
 """
+import ast
 import grp
 import itertools
 import json
@@ -60,7 +72,8 @@ from vlib.common import Run, rng_for
 from vlib.e7_config import ser
 
 PROP = "C16"
-RULE = ("cell = (kind, setting, set of mentioning sources, value assignment, way the config file is delivered | "
+RULE = ("cell = (kind, setting, set of mentioning sources, value assignment, way the config file is delivered | for the "
+        "setting with an environment-derived default of its effective value: the variable unset or its text | "
         "invalid representative, carrying source, fallback source | reload history: edit of the file (add, change, "
         "remove, unlink, rejected value at a position; with raw_env: none / add / change / remove, or start-up only), "
         "other source mentioning the setting, delivery, for raw_env histories the variables its entries name "
@@ -415,6 +428,16 @@ def enumerate_cells(meta, tier, seed):
                     cells.append({"kind": "X", "s": m["name"], "a": a, "b": b, "off": 0})
                     if tier != "quick":
                         cells.append({"kind": "X", "s": m["name"], "a": a, "b": b, "off": 1})
+        if m["name"] in ENV_DEFAULTS:
+            # E: the environment variable the derived, effective value consults, next to EVERY subset of the sources
+            # (the empty one included: then, and only then, the variable decides)
+            for r in range(0, len(srcs) + 1):
+                for subset in itertools.combinations(srcs, r):
+                    for off, step in ([(o, 1) for o in range(len(pool))] if tier == "quick" else
+                                      [(o, st) for o in range(len(pool)) for st in (1, -1)]) if r else [(0, 1)]:
+                        for envv in ENV_DEFAULTS[m["name"]]["values"]:
+                            cells.append({"kind": "E", "s": m["name"], "subset": list(subset), "off": off,
+                                          "step": step, "envv": envv})
         for bad in invalids_for(m, P):
             for src in srcs:
                 if not can_say(src, bad):
@@ -515,7 +538,8 @@ def enumerate_raw_env_histories(meta, tier, seed, P):
 
 def signature(c):
     return "|".join(str(c.get(k, "")) for k in ("kind", "s", "subset", "off", "step", "delivery", "a", "b", "src",
-                                                "bad", "fallback", "op", "ctx", "pos", "var", "when", "genv"))
+                                                "bad", "fallback", "op", "ctx", "pos", "var", "when", "genv")) + (
+                                                    "|envv=%r" % c["envv"] if "envv" in c else "")
 
 
 # ---- from a symbolic cell to a concrete recipe + what the model expects ---------------------------------
@@ -534,7 +558,7 @@ def resolve(cell, MB, P):
     m = MB[cell["s"]]
     pool = pool_for(m, P)
     out = []
-    if cell["kind"] in ("M", "D"):
+    if cell["kind"] in ("M", "D", "E"):
         for i, src in enumerate(cell["subset"]):
             out.append((m["name"], src, pool[pick(pool, src, (cell["off"] + cell["step"] * i) % len(pool))], False))
     elif cell["kind"] == "X":
@@ -601,6 +625,8 @@ def build(cell, MB, P):
         pre, lines = text["file"]
         files[load] = e7.FILE_HEADER + "".join(x + "\n" for x in pre) + "".join("%s = %s\n" % kv for kv in lines)
     recipe = {"argv": argv + ["app:app"], "files": files}
+    if cell["kind"] == "E":
+        recipe["environ"] = {ENV_DEFAULTS[cell["s"]]["var"]: cell["envv"]}
     if "env" in active:
         recipe["env"] = shlex.join(envt)
     if text["framework"][1]:
@@ -786,7 +812,7 @@ def expected(name, model, baseline):
 
 
 def is_nontrivial(cell, model, baseline):
-    if cell["kind"] in ("I", "X"):
+    if cell["kind"] in ("I", "X", "E"):
         return True
     nfs = [v["nf"] for s, _, v, _ in model["ment"] if s == cell["s"]]
     if len(nfs) == 1:
@@ -809,6 +835,203 @@ def rejection_type(name, rejected, bad, src):
 
 def exc_family(t):
     return t if t in EXC_FAMILIES else "other" if t and t != "option-parser" else None
+
+
+# ---- derived, effective values: what the server acts on ---------------------------------------------
+#
+# For some settings the server does not use the stored value but a derived `Config` property.  The statement speaks
+# of "the effective value": when a source mentions the setting the derived value has to follow the merged setting
+# (after normalisation); when nobody does, the documented default applies - for `sendfile` that is "the value of the
+# SENDFILE environment variable", else enabled.  The tables below are the reference; nothing comes from gunicorn.
+
+ENV_TRUE = ("1", "y", "yes", "true")            # any case; what the variable's documented switch reads as "enable"
+ENV_FALSE = ("0", "n", "no", "false")           # ... as "disable"; anything else: the default is not judged
+
+
+def _env_switch(text):
+    """True / False for a recognised spelling, None for text whose meaning is not documented."""
+    t = text.lower()
+    return True if t in ENV_TRUE else False if t in ENV_FALSE else None
+
+
+ENV_DEFAULTS = {
+    # setting: the variable its built-in default comes from AT ACCESS TIME, and the values it is given in E cells
+    # (None: the variable is absent)
+    "sendfile": {"var": "SENDFILE", "values": [None, "1", "0", "yes", "false", "TRUE", "n", "garbage", ""],
+                 "unset": True},
+}
+
+DERIVED = {
+    # derived property: the settings it is made of
+    "sendfile": ("sendfile",), "address": ("bind",), "uid": ("user",), "gid": ("group",),
+    "proc_name": ("proc_name", "default_proc_name"), "worker_class_str": ("worker_class", "threads"),
+    "env": ("raw_env",), "is_ssl": ("certfile", "keyfile"), "ssl_options": None,     # None: every setting of section SSL
+    "reuse_port": ("reuse_port",), "paste_global_conf": ("raw_paste_global_conf",),
+}
+
+
+def _lit(nf):
+    try:
+        return ast.literal_eval(nf)
+    except (ValueError, SyntaxError):
+        return NF(nf)
+
+
+def _ref_address(b):
+    """Documented forms of a bind address: unix:PATH, [IPV6]:PORT, HOST:PORT, HOST (port 8000).  None: not modelled."""
+    if b.startswith("unix:"):
+        b = b[5:]
+        return b[2:] if b.startswith("//") else b
+    if b.startswith("["):
+        host, _, rest = b[1:].partition("]")
+        if rest == "":
+            return (host.lower(), 8000)
+        return (host.lower(), int(rest[1:])) if rest.startswith(":") and rest[1:].isdigit() else None
+    if b.count(":") == 1:
+        host, port = b.split(":")
+        return (host.lower(), int(port)) if port.isdigit() else None
+    return (b.lower(), 8000) if b and ":" not in b and "/" not in b else None
+
+
+def _ref_pairs(items):
+    out = {}
+    for e in items:
+        if not isinstance(e, str) or "=" not in e or "\\" in e:
+            return None
+        k, v = e.split("=", 1)
+        out[k] = v
+    return out
+
+
+def derive(merged, environ, MB):
+    """merged: {setting: normal form the merge of the sources gives}; environ: the variables of the cell's environment
+    that derived values consult ({name: text}, absent = unset).  -> {property: expected ser() text | None = not judged}."""
+    out = {}
+    sf = merged["sendfile"]
+    if sf in ("True", "False"):                 # somebody mentions it: that value, whatever the environment says
+        out["sendfile"] = sf
+    elif ENV_DEFAULTS["sendfile"]["var"] in environ:
+        sw = _env_switch(environ[ENV_DEFAULTS["sendfile"]["var"]])
+        out["sendfile"] = None if sw is None else ser(sw)
+    else:
+        out["sendfile"] = ser(ENV_DEFAULTS["sendfile"]["unset"])
+    binds = _lit(merged["bind"])
+    addrs = [_ref_address(b) for b in binds] if isinstance(binds, list) and all(isinstance(b, str) for b in binds) else [None]
+    out["address"] = None if None in addrs else ser(addrs)
+    out["uid"], out["gid"] = merged["user"], merged["group"]
+    out["proc_name"] = merged["proc_name"] if merged["proc_name"] != "None" else merged["default_proc_name"]
+    wc, threads = _lit(merged["worker_class"]), _lit(merged["threads"])
+    if isinstance(wc, NF):
+        out["worker_class_str"] = ser(wc[len("<class "):-1].split(".")[-1]) if wc.startswith("<class ") else None
+    elif isinstance(wc, str) and isinstance(threads, int):
+        out["worker_class_str"] = ser("gthread" if (wc == "sync" or wc.endswith("SyncWorker")) and threads > 1 else wc)
+    else:
+        out["worker_class_str"] = None
+    raw = _lit(merged["raw_env"])
+    pairs = _ref_pairs(raw) if isinstance(raw, list) else None
+    out["env"] = None if pairs is None else ser(pairs)
+    out["is_ssl"] = ser(bool(_lit(merged["certfile"]) or _lit(merged["keyfile"])))
+    ssl_names = sorted((n for n, m in MB.items() if m.get("section") == "SSL"), key=repr)
+    out["ssl_options"] = "{" + ", ".join("%s: %s" % (ser(n), merged[n]) for n in ssl_names) + "}" if ssl_names else None
+    out["reuse_port"] = merged["reuse_port"]
+    rp = _lit(merged["raw_paste_global_conf"])
+    pairs = _ref_pairs(rp) if isinstance(rp, list) else None
+    out["paste_global_conf"] = "None" if rp is None else None if pairs is None else ser(pairs)
+    return out
+
+
+def _derived_from(prop, MB):
+    return DERIVED[prop] if DERIVED[prop] is not None else tuple(n for n, m in MB.items() if m.get("section") == "SSL")
+
+
+def judge_effective(run, prefix, when, cell, shown, mentions, model, baseline, obs, MB, environ=None):
+    """Compare every derived property the helper reports with what the model's merge of the sources implies.
+    Called only after every stored setting was found equal to the merge.  -> True if a violation was filed."""
+    eff = obs.get("effective")
+    if not isinstance(eff, dict) or set(eff) != set(DERIVED):
+        run.inconclusive_because("cell %s: the helper reported no / other derived values (%s)" % (
+            signature(cell), sorted(eff) if isinstance(eff, dict) else eff))
+        return True
+    environ = {k: v for k, v in (environ or {}).items() if v is not None}
+    vm = dict(model, mentions=mentions)
+    merged = {s: expected(s, vm, baseline)[0] for s in baseline}
+    want = derive(merged, environ, MB)
+    plain = derive(baseline, {}, MB)
+    ctl = obs.get("control")
+    if environ and not (isinstance(ctl, dict) and ctl.get("ok") and ctl.get("values") == obs["values"]
+                        and isinstance(ctl.get("effective"), dict)):
+        run.inconclusive_because("cell %s: no usable control load without %s (%s)" % (
+            signature(cell), sorted(environ), json.dumps(ctl)[:200]))
+        return True
+    for prop in sorted(DERIVED):
+        exp, got = want[prop], eff[prop]
+        parts = _derived_from(prop, MB)
+        said = [s for s in parts if s in mentions]
+        if exp is None:
+            run.count("effective_values_not_modelled")
+            continue
+        run.count("effective_values_compared")
+        if got == exp:
+            if said and exp != plain[prop]:
+                run.count("effective_follows_merge_" + prop)
+            continue
+        var = ENV_DEFAULTS.get(prop, {}).get("var")
+        facts = "merged setting%s %s; derived cfg.%s expected %s, is %s; mentions %s; sources %s" % (
+            "s" if len(parts) > 1 else "", json.dumps({s: merged[s] for s in (parts if len(parts) <= 3 else said)},
+                                                      sort_keys=True), prop, exp, got,
+            json.dumps({s: mentions[s] for s in said}, sort_keys=True), json.dumps(shown))
+        if said and var in environ and ctl["effective"].get(prop) == exp:
+            # the same sources WITHOUT the variable give the right value: the variable, which only supplies the
+            # built-in default, overrode a source that mentions the setting
+            wsrc = expected(said[0], vm, baseline)[1]
+            run.violation(prefix + "environment-default-outranks-source/" + prop,
+                          "%s: %s the server acts on cfg.%s = %s although %s says %s: %s=%r in the environment, which only "
+                          "supplies the built-in default, decided (the same sources loaded without the variable give %s); %s"
+                          % (prop, when, prop, got, SRC_WORDS[wsrc], exp, var, environ[var], ctl["effective"][prop], facts),
+                          cell)
+        elif not said and var is not None:
+            run.violation(prefix + "environment-derived-default-wrong/" + prop,
+                          "%s: %s no source mentions it and the environment has %s; documented default %s, the server "
+                          "acts on %s; %s" % (prop, when, "%s=%r" % (var, environ[var]) if var in environ else
+                                              "no " + var, exp, got, facts), cell)
+        else:
+            run.violation(prefix + "effective-value-differs-from-merged-setting/" + prop,
+                          "%s: %s the value the server acts on (cfg.%s) is %s; the merge of the sources gives %s%s; %s" % (
+                              prop, when, prop, got, exp, "" if var not in environ else
+                              " (environment: %s=%r; without it the same sources give %s)" % (
+                                  var, environ[var], ctl["effective"].get(prop)), facts), cell)
+        return True
+    return False
+
+
+def _env_cell_reach(run, cell, model, baseline, obs):
+    """Reach of a judged E cell (everything stored and everything derived was as the model says)."""
+    name, var = cell["s"], ENV_DEFAULTS[cell["s"]]["var"]
+    run.count("env_default_cells")
+    envv = cell["envv"]
+    sw = None if envv is None else _env_switch(envv)
+    if cell["subset"]:
+        exp, wsrc = expected(name, model, baseline)
+        run.count("env_default_cells_%d_sources" % len(cell["subset"]))
+        if envv is None:
+            run.count("effective_follows_source_variable_unset")
+        elif sw is not None and ser(sw) != exp:
+            run.count("effective_source_overrides_environment_variable")
+            run.count("effective_%s_overrides_environment_variable" % wsrc)
+        elif sw is None:
+            run.count("effective_follows_source_variable_unrecognised")
+        else:
+            run.count("effective_source_and_environment_variable_agree")
+    elif envv is None:
+        run.count("environment_default_variable_unset")
+    elif sw is None:
+        run.count("environment_default_unrecognised_value_not_judged")
+    else:
+        run.count("environment_default_applies_" + ("true" if sw else "false"))
+        if ser(sw) != ser(ENV_DEFAULTS[name]["unset"]):
+            run.count("environment_default_differs_from_unset_default")
+        if envv.lower() != envv:
+            run.count("environment_default_case_insensitive")
 
 
 def judge(run, cell, recipe, model, baseline, obs, MB):
@@ -900,6 +1123,14 @@ def judge(run, cell, recipe, model, baseline, obs, MB):
                       "config files executed %s, expected %s; sources %s" % (
                           [os.path.basename(x) for x in obs["loaded"]], [os.path.basename(x) for x in model["load"]],
                           json.dumps(shown)), cell)
+        return
+    if recipe.get("environ"):
+        shown["environment"] = recipe["environ"]
+    if judge_effective(run, "", "after loading", cell, shown, model["mentions"], model, baseline, obs, MB,
+                       recipe.get("environ")):
+        return
+    if cell["kind"] == "E":
+        _env_cell_reach(run, cell, model, baseline, obs)
         return
     # reach counters: which clause did this cell actually exercise
     exp, wsrc = expected(name, model, baseline)
@@ -1075,6 +1306,9 @@ def judge_history(run, cell, recipe, model, baseline, obs, MB):
         return
     if _reexec_env_changed(run, "", "at start-up", obs["reexec_env"], cell, shown, obs):
         return
+    if judge_effective(run, "", "at the start of a reload history", cell, shown, vers[0]["mentions"], model, baseline,
+                       obs, MB):
+        return
     if cell["kind"] == "RE" and cell["op"] == "start":
         # the plain control: the first Config exists before anything is exported
         run.count("raw_env_startup_cells")
@@ -1177,6 +1411,9 @@ def judge_history(run, cell, recipe, model, baseline, obs, MB):
                               json.dumps(shown)), cell)
             return
         if _reexec_env_changed(run, "reload/", "after reload %d" % i, o.get("reexec_env"), cell, shown, obs):
+            return
+        if judge_effective(run, "reload/", "after reload %d" % i, cell, shown, ver["mentions"], model, baseline,
+                           dict(o, control=None), MB):
             return
         # reach: what this reload showed
         run.count("reload_settings_compared", len(baseline))
@@ -1367,13 +1604,23 @@ def main(tier, seed):
                 *["raw_env_cmd_args_exported_ctx_" + x for x in ("none", "framework", "env", "cli")],
                 *["raw_env_when_" + x for x in RE_WHEN], *["raw_env_edit_" + x for x in RE_OPS],
                 "raw_env_naming_cmd_args_at_startup_changes_nothing", "raw_env_unrelated_variable_at_startup_control",
-                *["raw_env_startup_delivery_" + x for x in R_DELIVERIES])
+                *["raw_env_startup_delivery_" + x for x in R_DELIVERIES],
+                # derived, effective values (what the server acts on) against the merge of the sources; the variable an
+                # effective value consults for its built-in default next to every subset of the sources
+                "effective_values_compared", *["effective_follows_merge_" + p for p in sorted(DERIVED)],
+                "env_default_cells", *["env_default_cells_%d_sources" % k for k in (1, 2, 3, 4)],
+                "effective_source_overrides_environment_variable",
+                *["effective_%s_overrides_environment_variable" % x for x in SOURCES],
+                "effective_follows_source_variable_unset", "effective_follows_source_variable_unrecognised",
+                "environment_default_variable_unset", "environment_default_applies_true",
+                "environment_default_applies_false", "environment_default_differs_from_unset_default",
+                "environment_default_case_insensitive", "environment_default_unrecognised_value_not_judged")
     meta = _meta_once()
     cells = enumerate_cells(meta, tier, seed)
     run.info["settings"] = len(meta)
     run.info["settings_with_cli_flag"] = len([m for m in meta if m["cli"]])
     run.info["matrix_cells"] = len(cells)
-    for k in ("M", "D", "X", "I", "R", "RI", "RE"):
+    for k in ("M", "D", "X", "E", "I", "R", "RI", "RE"):
         run.info["matrix_cells_" + k] = len([c for c in cells if c["kind"] == k])
     run.extra_cov["exhaustive"] = True
     run.extra_cov["matrix"] = ("every setting of make_settings() x every non-empty subset of the sources able to "
@@ -1385,10 +1632,25 @@ def main(tier, seed):
                                "change, remove} whose file carries raw_env entries naming GUNICORN_CMD_ARGS (and "
                                "WEB_CONCURRENCY, PORT, FORWARDED_ALLOW_IPS, or an unrelated variable) from the start / "
                                "from the edit on / until the edit, with and without a GUNICORN_CMD_ARGS in the server's "
-                               "own environment, and the start-up-only control (see rule)" % len(assignments(4, tier, seed)))
+                               "own environment, and the start-up-only control (see rule); plus, for the setting whose "
+                               "effective value has an environment-derived default (sendfile / SENDFILE), every subset of the "
+                               "sources (the empty one included) x every value of the pool x the variable unset / 1 / 0 / yes / "
+                               "false / TRUE / n / garbage / empty" % len(assignments(4, tier, seed)))
     run.assumptions = [
-        "judged at the settings layer (cfg.settings[name].get() after Application.load_config); derived properties "
-        "(cfg.sendfile, cfg.worker_class, cfg.address ...) are out of scope",
+        "judged at the settings layer (cfg.settings[name].get() after Application.load_config) AND, once every stored "
+        "setting equals the merge, at the derived Config properties the server acts on where reading them has no outward "
+        "effect: cfg.sendfile, address, uid, gid, proc_name, worker_class_str, env, is_ssl (truth value), ssl_options, "
+        "reuse_port, paste_global_conf - each compared with a reference derivation from the MERGED normal forms "
+        "(effective-value-differs-from-merged-setting/<property>); cfg.worker_class / cfg.logger_class import modules and "
+        "call setup() / install(): not evaluated",
+        "sendfile: when a source mentions it the effective value is that merged value whatever SENDFILE says "
+        "(environment-default-outranks-source/sendfile when the same sources loaded WITHOUT the variable - the control "
+        "load the helper adds - give the right value); when nobody mentions it the documented default applies: SENDFILE "
+        "read as a switch (1 / y / yes / true enable, 0 / n / no / false disable, any case), enabled when the variable is "
+        "absent; a value of the variable outside those spellings has no documented meaning: the default is then not judged "
+        "(counted), a mentioning source still has to win",
+        "WEB_CONCURRENCY, PORT and FORWARDED_ALLOW_IPS become built-in defaults when gunicorn.config is imported, once "
+        "per helper process: not varied per cell",
         "`-c X` counts as the carrying source mentioning config=X, and the application argument (or the command line's "
         "--paste FILE) is the built-in default of default_proc_name - both by design",
         "loads run in-process in one helper per shard with sys.argv, os.environ, cwd, sys.path and config modules reset "
